@@ -69,6 +69,7 @@ type TypeContract struct {
 	RestInvs   []*Clause // monitor invariants that hold only while the lock is free (not at hand-over or helper calls inside a critical section)
 	WgAddsUnder map[string]string // WaitGroup field -> "pkg.Type.lockfield": every Add on WaitGroups of that field happens under a lock of that class
 	ObjInvs    []*Clause // hold for every object of the type from the moment it is shared (checked when it stops being thread-local and after stores to the fields they mention)
+	SetOnce    map[string]bool   // fields that only ever leave their zero value: every store proves "old == zero or new == old" (a published flag is never taken back)
 	SyncMaps   map[string]string // sync.Map field -> type text of the values it holds (non-nil pointers of that type)
 	File       string
 }
@@ -110,7 +111,7 @@ var clauseKeywords = map[string]bool{
 	"nopanic": true, "arith": true, "inv": true, "decreases": true, "assert": true, "callee": true,
 	"stable": true, "escapable": true, "thread-entry": true, "split": true, "inline": true, "pure": true,
 	"monitor": true, "invariant": true, "rely": true, "self": true, "maypanic": true, "havoc": true,
-	"assume": true, "entry-assume": true, "ownschan": true, "strong-invariant": true, "ghostfield": true, "interferes": true, "ghost": true, "unroll": true, "trusted": true, "syncmap": true, "object-invariant": true, "rest-invariant": true, "wgadds": true, "gives": true,
+	"assume": true, "entry-assume": true, "ownschan": true, "strong-invariant": true, "ghostfield": true, "interferes": true, "ghost": true, "unroll": true, "trusted": true, "syncmap": true, "object-invariant": true, "rest-invariant": true, "wgadds": true, "gives": true, "setonce": true,
 }
 var blockKeywords = map[string]bool{"waitorder": true, "lockorder": true, "type": true, "func": true, "spec": true, "lemma": true, "assume-contract": true, "global": true, "chan": true}
 
@@ -338,6 +339,13 @@ func (cs *Contracts) parseFile(path string) error {
 						curT.GhostFields = map[string]string{}
 					}
 					curT.GhostFields[fs[0]] = fs[1]
+				case "setonce":
+					if curT.SetOnce == nil {
+						curT.SetOnce = map[string]bool{}
+					}
+					for _, f := range strings.Split(l.rest, ",") {
+						curT.SetOnce[strings.TrimSpace(f)] = true
+					}
 				case "wgadds":
 					// wgadds FIELD under LOCKFIELD | Type.LOCKFIELD
 					fs := strings.Fields(l.rest)
